@@ -262,6 +262,14 @@ func (c *composer) keyTypeAccepts(name, key string) bool {
 	return c.keyTypeAcceptsVia(name, key, nil)
 }
 
+// KeyTypeAccepts: does the string type name (a key-shortcut type) accept key? judged=false when
+// the statement does not settle it.
+func KeyTypeAccepts(g *Graph, name, key string) (accepts, judged bool) {
+	c := &composer{g: g, feat: map[string]bool{}}
+	ok := c.keyTypeAccepts(name, key)
+	return ok, c.unsp == ""
+}
+
 func (c *composer) keyTypeAcceptsVia(name, key string, path []string) bool {
 	for _, p := range path {
 		if p == name {
